@@ -63,6 +63,7 @@ type event struct {
 	HasTotal bool      `json:"hastotal"`
 	AF       []string  `json:"af"`   // focus given as an argument of the report command (this command only)
 	AI       []string  `json:"ai"`   // ignore given as an argument (-name)
+	AH       []string  `json:"ah"`   // hide given with the request (web)
 	ASI      int       `json:"asi"`  // sample index given with the request (web), 0 = none
 	ARel     string    `json:"arel"` // relative_percentages given with the request (web): "", "t", "f"
 	Text     string    `json:"text,omitempty"`
@@ -168,6 +169,14 @@ func randomLine(r *vlib.Rand, cli bool) line {
 		}
 		return line{"ignore=" + anchored(ns), event{Ev: "assign", Opt: "ignore", Names: ns}}
 	case k < 5:
+		if r.Intn(2) == 0 {
+			ns := pick()
+			if !cli && r.Intn(4) == 0 {
+				ns = nil
+			}
+			opt := []string{"hide", "hide", "show"}[r.Intn(3)]
+			return line{opt + "=" + anchored(ns), event{Ev: "assign", Opt: opt, Names: ns}}
+		}
 		n := r.Intn(2)
 		return line{fmt.Sprintf("sample_index=%d", n), event{Ev: "assign", Opt: "si", N: n + 1}}
 	case k < 6:
@@ -479,6 +488,12 @@ func oneRun(id int, r *vlib.Rand) {
 					q.Set("i", anchored(e.AI))
 				}
 			}
+			if r.Intn(4) == 0 {
+				e.AH = pickSome(r, 1)
+				if len(e.AH) > 0 {
+					q.Set("h", anchored(e.AH))
+				}
+			}
 			if r.Intn(3) == 0 {
 				e.ASI = 1 + r.Intn(2)
 				q.Set("si", fmt.Sprintf("s%d", e.ASI))
@@ -596,6 +611,9 @@ func oneRun(id int, r *vlib.Rand) {
 		if e.AI == nil {
 			e.AI = []string{}
 		}
+		if e.AH == nil {
+			e.AH = []string{}
+		}
 		if e.Bases == nil {
 			e.Bases = []asrc{}
 		}
@@ -632,5 +650,5 @@ func main() {
 	for i := 0; i < n; i++ {
 		oneRun(i, r)
 	}
-	run.Finish("whole runs of driver.PProf observed at the plug-in boundaries: 1-3 sources and 0-2 -base sources (each failing with probability 1/5), profile-level drop/keep frame rules, sources that are symbolized or address-only (the names then come from the Symbolizer plug-in, before the drop rules apply), x command-line mode, interactive sessions of 1-5 lines (focus / ignore / sample_index / relative_percentages assignments, top / traces reports with per-command arguments, rejected and ignored lines) or a web server answering /top requests with per-request options, concretised with varying id layouts; every boundary event validated by TLC against the machine of Pprof.tla; non-trivial = distinct (mode, sources, lines)")
+	run.Finish("whole runs of driver.PProf observed at the plug-in boundaries: 1-3 sources and 0-2 -base sources (each failing with probability 1/5), profile-level drop/keep frame rules, sources that are symbolized or address-only (the names then come from the Symbolizer plug-in, before the drop rules apply), x command-line mode, interactive sessions of 1-5 lines (focus / ignore / hide / show / sample_index / relative_percentages assignments, top / traces reports with per-command arguments, rejected and ignored lines) or a web server answering /top requests with per-request options, concretised with varying id layouts; every boundary event validated by TLC against the machine of Pprof.tla; non-trivial = distinct (mode, sources, lines)")
 }
